@@ -67,9 +67,21 @@ type ckConfig struct {
 	window    time.Duration
 }
 
+// Model flags (lib/code_flags.json): which variant of the code under test the Coq model has to follow.
+// They are passed to the model with every configuration and have no influence on the real code driven here.
+var (
+	ckSegPrefix bool // -seg-prefix: Ingresses.MatchingPath matches on segment boundaries (repo commit a1203b1)
+	ckRlCeil    bool // -rl-ceil: the logincount Max-Age is the window rounded up to whole seconds (repo commit c75583b)
+)
+
+func ckModelFlags(fs *flag.FlagSet) {
+	fs.BoolVar(&ckSegPrefix, "seg-prefix", false, "model flag: ingress paths match on segment boundaries")
+	fs.BoolVar(&ckRlCeil, "rl-ceil", false, "model flag: rate-limit Max-Age = ceil(window seconds)")
+}
+
 func (c ckConfig) tokens() string {
 	return strings.Join([]string{b01(c.secure), hx(c.sameSite), hx(c.prefix), hxList(c.ingresses), b01(c.sso), hx(c.domain),
-		hx(c.name), b01(c.legacy), b01(c.rl), fmt.Sprint(c.logins), fmt.Sprint(int64(c.window))}, " ")
+		hx(c.name), b01(c.legacy), b01(c.rl), fmt.Sprint(c.logins), fmt.Sprint(int64(c.window)), b01(ckSegPrefix), b01(ckRlCeil)}, " ")
 }
 
 func (c ckConfig) config() *config.Config {
@@ -793,6 +805,7 @@ func runCookies(args []string) error {
 	seed := fs.Int64("seed", 1, "PRNG seed")
 	tier := fs.String("tier", "quick", "quick|thorough")
 	part := fs.String("part", "all", "all|static|scripts|jar")
+	ckModelFlags(fs)
 	fs.Parse(args)
 	rng := rand.New(rand.NewSource(*seed))
 	thorough := *tier == "thorough"
